@@ -853,6 +853,10 @@ def build(recipe, U):
         return recipe[1]
     if name == "side":
         return build(recipe[1], U)(recipe[2])
+    if name in ("jump", "avg"):
+        import ufl
+
+        return getattr(ufl, name)(build(recipe[1], U))
     es, ps = split_args(recipe)
     b = ops()[name][1]
     return b(U, *[build(e, U) for e in es], *ps)
@@ -873,6 +877,16 @@ def interp(recipe, U, ctx, cache=None):
         if not ctx.env.two_sided:
             raise Undefined("restriction in one-sided env")
         return interp(recipe[1], U, M._side_ctx(ctx, recipe[2]))
+    if name in ("jump", "avg"):
+        if ctx.side is not None:
+            raise LangError("nested restriction")
+        if not ctx.env.two_sided:
+            raise Undefined("restriction in one-sided env")
+        a = interp(recipe[1], U, M._side_ctx(ctx, "+"))
+        b = interp(recipe[1], U, M._side_ctx(ctx, "-"))
+        if name == "jump":
+            return l_add(a, b, -1)
+        return l_unary(lambda x: x / 2)(l_add(a, b))
     es, ps = split_args(recipe)
     f = ops()[name][2]
     if name in CTX_OPS:
@@ -889,6 +903,8 @@ def show_recipe(r):
         return repr(r[1])
     if name == "side":
         return f"({show_recipe(r[1])})('{r[2]}')"
+    if name in ("jump", "avg"):
+        return f"{name}({show_recipe(r[1])})"
     es, ps = split_args(r)
     ss = [show_recipe(e) for e in es]
     inf = {"add": "+", "sub": "-", "mul": "*", "div": "/", "pow": "**"}
